@@ -46,7 +46,12 @@ RULE = ("E4: outline template with the 6 placeholder positions {name, step name,
         "- / 3. Reference = the documented Table API (values shorter than the table are padded with default_value) "
         "stepped in lock step, then the reference expansion of the current tables. Deduplicated on (blocks incl. "
         "cell container type, modified flags, cached expansion, variant operations used); thorough repeats the "
-        "search without deduplication within smaller bounds and demands the same canonical states. An outline is "
+        "search without deduplication within smaller bounds and demands the same canonical states. E2b failed-build "
+        "histories: outlines of 1-2 blocks x 0-2 (thorough 0-3) rows x {first build, rebuild after a read} x {no "
+        "edit, add_row(block), add_column(block)} x every fault site {bad annotation-schema field = first rendered "
+        "row; non-text cell brought in by add_column at (block,row)}: the read must raise, the cause is repaired "
+        "outside the table API, then .scenarios (read twice) must equal the expansion of a freshly parsed outline "
+        "over the same tables. An outline is "
         "non-trivial (counted distinct by its case) when it has >=1 row and >=1 placeholder position switched on; a "
         "history is non-trivial when it contains an edit after a read/run (the cache had to be invalidated).")
 ASSUMPTIONS = [
@@ -865,6 +870,113 @@ def check_history(case):
             "keep": (case, canon, tuple(applicable_ops(model)))}
 
 
+# =============================================================================
+# E2b: failed-build histories (a (re)build that raises part-way, repaired outside the table API)
+# =============================================================================
+BAD_SCHEMA = u"{name} -- @{row.nr} {examples.name}"        # unknown field -> AttributeError while naming a row
+FB_ROWS = ((u"x", u"\xfc"), (u"b", u"x y"), (u"", u"x"))
+
+
+def failed_build_cases(max_rows):
+    """(shape, prior_read, pre_edit, fault): small outlines x {first build, rebuild after add_row / add_column} x
+    every fault site.  fault = ("schema",) - raises at the first row that is rendered - or ("cell", block, row) - a
+    non-text cell brought in through Table.add_column at exactly that row"""
+    shapes = [(r,) for r in range(1, max_rows + 1)]
+    shapes += [(r1, r2) for r1 in range(0, max_rows + 1) for r2 in range(0, max_rows + 1) if r1 + r2]
+    for shape in shapes:
+        nb = len(shape)
+        pre_edits = [None] + [("add_row", j) for j in range(nb)] + [("add_col", j) for j in range(nb)]
+        for prior_read in (False, True):
+            for pre in pre_edits:
+                if not (prior_read and pre is None):        # nothing modified -> no rebuild -> no fault
+                    yield (shape, prior_read, pre, ("schema",))
+                if pre is not None and pre[0] == "add_col":
+                    continue                                 # the cell fault is itself an add_column
+                for k in range(nb):
+                    nrows = shape[k] + (1 if pre == ("add_row", k) else 0)
+                    for r in range(nrows):
+                        yield (shape, prior_read, pre, ("cell", k, r))
+
+
+def check_failed_build(case):
+    shape, prior_read, pre, fault = case
+    tmpl = template(FULL, cols="abc")
+    model = [{"name": [u"E-<a>", u"Two"][bi], "tags": [[u"e1"], []][bi], "headings": [[u"a", u"b"], [u"b", u"a"]][bi],
+              "rows": [list(FB_ROWS[ri]) for ri in range(n)]} for bi, n in enumerate(shape)]
+    phase = "rebuild" if prior_read else "first-build"
+    base = {"subcheck": "failed-build", "phase": phase}
+    what = "outline %r, %s%s, fault %r" % (shape, phase, " after %s(block %d)" % pre if pre else "", fault)
+    v = []
+    _reset_globals(None)
+    try:
+        feature, outline, lines, text = parse_outline(tmpl, model)
+        if prior_read:
+            list(outline.scenarios)
+        if pre is not None:
+            t = outline.examples[pre[1]].table
+            if pre[0] == "add_row":
+                cells = [ROW_PATTERNS[1][h] for h in model[pre[1]]["headings"]]
+                t.add_row(list(cells))
+                model[pre[1]]["rows"].append(list(cells))
+            else:
+                t.add_column(u"c", default_value=u"d")
+                model[pre[1]]["headings"].append(u"c")
+                for r in model[pre[1]]["rows"]:
+                    r.append(u"d")
+        # ---- inject the fault
+        if fault[0] == "schema":
+            outline.annotation_schema = BAD_SCHEMA
+        else:
+            _, k, r = fault
+            n = len(model[k]["rows"])
+            outline.examples[k].table.add_column(u"c", values=[42 if i == r else u"q%d" % i for i in range(n)])
+            model[k]["headings"].append(u"c")
+            for i, row in enumerate(model[k]["rows"]):
+                row.append(u"fixed" if i == r else u"q%d" % i)
+        raised = None
+        try:
+            list(outline.scenarios)
+        except Exception as e:
+            raised = type(e).__name__
+        # ---- repair the cause OUTSIDE the table API (no new modified flag)
+        if fault[0] == "schema":
+            outline.annotation_schema = DEFAULT_SCHEMA
+        else:
+            outline.examples[fault[1]].table.rows[fault[2]].cells[-1] = u"fixed"
+        # ---- the oracle: a freshly parsed outline over the same (repaired) tables
+        ffeature, fresh, flines, ftext = parse_outline(tmpl, model)
+        want = [(g["name"], g["tags"], g["steps"]) for g in map(snap_scenario, fresh.scenarios)]
+        try:
+            got = [(g["name"], g["tags"], g["steps"]) for g in map(snap_scenario, outline.scenarios)]
+            again = [(g["name"], g["tags"], g["steps"]) for g in map(snap_scenario, outline.scenarios)]
+        except Exception as e:
+            v.append((dict(base, clause="read-after-repair-raises", exc=type(e).__name__),
+                      "%s: build raised %s, cause repaired, reading .scenarios raised %s: %s"
+                      % (what, raised, type(e).__name__, e)))
+            return {"v": v, "dg": ("exc", raised, type(e).__name__), "out": ("fb", "exc"), "n": 3}
+        if raised is not None and got != want:
+            k = len(got)
+            for i, (g, w) in enumerate(zip(got, want)):
+                if g != w:
+                    k = i
+                    break
+            v.append((dict(base, clause="expansion-after-repaired-build-failure-differs-from-fresh-outline"),
+                      "%s: the (re)build raised %s; after repairing the cause outside the table API .scenarios has %d "
+                      "scenarios, a freshly parsed outline over the same tables has %d; first difference at #%d: %r "
+                      "vs %r" % (what, raised, len(got), len(want), k + 1, got[k] if k < len(got) else None,
+                                 want[k] if k < len(want) else None)))
+        elif raised is None and got != want:
+            v.append((dict(base, clause="expansion-differs-from-fresh-outline", fault="did-not-raise"),
+                      "%s: no exception, but .scenarios differs from a freshly parsed outline" % what))
+        elif again != got:
+            v.append((dict(base, clause="second-read-after-repair-differs"), "%s: second read differs" % what))
+    finally:
+        _restore_globals()
+    return {"v": v, "dg": (raised, got), "out": ("fb", raised, len(got)), "n": 3,
+            "nt": ("fb", case) if raised is not None else None,
+            "st": {"transitions": 2 + bool(prior_read) + bool(pre), "traces": 1}}
+
+
 def allowed(history_ops, bounds):
     """deviation bound of the history search: bounds = {number of variant operations: maximal history length}"""
     nvar = sum(1 for op in history_ops if is_variant(op))
@@ -920,6 +1032,12 @@ def run(ctx):
                   "start_outlines": len(STARTS)}
     for name, cases in plan:
         ctx.sweep(check_outline, cases, chunk=64, name=name)
+    n_outlines = len(ctx.nt)
+    fb_cases = list(failed_build_cases(2 if ctx.quick else 3))
+    ctx.sweep(check_failed_build, fb_cases, chunk=16, name="failed-build histories")
+    n_fb = len(ctx.nt) - n_outlines
+    ctx.guard(n_fb >= 0.9 * len(fb_cases), "the injected faults make the (re)build raise (%d of %d)"
+              % (n_fb, len(fb_cases)))
     n_outlines = len(ctx.nt)
     seen, per_depth = bfs(ctx, bounds, True, "histories")
     ctx.st.update({"states": len(seen)})
